@@ -127,7 +127,7 @@ def coq_make(targets, timeout=1800):
                 return False, out
     tg = ' '.join(t + '.vo' for t in targets)
     with Lock('coqmake_' + hashlib.sha1(tg.encode()).hexdigest()[:12]):
-        rc, out, dt = sh('timeout %d make -k -j8 COQC="timeout %d coqc" %s' % (timeout, PER_FILE_TIMEOUT, tg), cwd=COQ, timeout=timeout + 30)
+        rc, out, dt = sh('timeout %d make -k -j8 COQC="prlimit --as=17179869184 timeout %d coqc" %s' % (timeout, PER_FILE_TIMEOUT, tg), cwd=COQ, timeout=timeout + 30)
         return rc == 0, out
 
 def coq_check_props(propfile, timeout=900):
@@ -278,6 +278,8 @@ def _big_stack():
     try:
         soft, hard = resource.getrlimit(resource.RLIMIT_STACK)
         resource.setrlimit(resource.RLIMIT_STACK, (hard, hard))
+        # ... but never more than 8 GiB of address space per runner process (a runaway case must not take the machine down)
+        resource.setrlimit(resource.RLIMIT_AS, (8 << 30, 8 << 30))
     except Exception:
         pass
 
@@ -456,35 +458,53 @@ class Check:
         return not broken and not errs
 
     # -- correspondence for one family
-    def correspond(self, fam, cases=None, replaying=False):
+    def prepare(self, fam, cases=None):
+        """Build the family's model runner and harness and run both on the cases (no shared state touched: may run in a thread)."""
         name = fam['name']
         fb = os.path.join(self.bdir, name)
         os.makedirs(fb, exist_ok=True)
+        prep = dict(fb=fb, err=None, model=None, exe=None, cases=cases, impl_tr={}, crashes={}, model_tr={}, merrs=[], t=(0, 0))
+        try:
+            if fam.get('extract'):
+                model, err = build_model(fam, fb)
+                if model is None:
+                    prep['err'] = ('model build failed (extraction of the Coq model)', dict(error=err[-2000:])); return prep
+            else:
+                model = None   # implementation-only family: the oracle alone judges the implementation's outputs
+            exe, err = build_harness(fam, fb, sanitize=fam.get('sanitize', True))
+            if exe is None:
+                prep['err'] = ('harness does not build against the current tree', dict(error=err[-3000:])); return prep
+            if cases is None:
+                rng = random.Random(self.seed * 1000003 + zlib_crc(name))
+                cases = self.corpus_cases(fam) + fam['gen'](rng, self.tier)
+            t0 = time.time()
+            impl_tr, crashes = run_impl(exe, cases, fb, timeout=fam.get('impl_timeout', 900))
+            t1 = time.time()
+            if model is not None:
+                model_tr, merrs = run_model(model, cases, impl_tr, fb)
+            else:
+                model_tr, merrs = dict(impl_tr), []
+            t2 = time.time()
+            prep.update(model=model, exe=exe, cases=cases, impl_tr=impl_tr, crashes=crashes, model_tr=model_tr, merrs=merrs,
+                        t=(round(t1 - t0, 2), round(t2 - t1, 2)))
+        except Exception as e:  # noqa
+            import traceback
+            prep['err'] = ('check machinery failed while preparing the family: %s' % e, dict(trace=traceback.format_exc()[-2000:]))
+        return prep
+
+    def correspond(self, fam, cases=None, replaying=False, prep=None):
+        name = fam['name']
+        if prep is None:
+            prep = self.prepare(fam, cases)
+        fb = prep['fb']
         famcov = dict(cases=0, ops=0, mismatches=0, crashes=0, oracle_failures=0, tags={})
         self.cov['families'][name] = famcov
-        if fam.get('extract'):
-            model, err = build_model(fam, fb)
-            if model is None:
-                self.report(fam, None, 'model build failed (extraction of the Coq model)', dict(error=err[-2000:]), False)
-                return
-        else:
-            model = None   # implementation-only family: the oracle alone judges the implementation's outputs
-        exe, err = build_harness(fam, fb, sanitize=fam.get('sanitize', True))
-        if exe is None:
-            self.report(fam, None, 'harness does not build against the current tree', dict(error=err[-3000:]), False)
+        if prep['err']:
+            self.report(fam, None, prep['err'][0], prep['err'][1], False)
             return
-        if cases is None:
-            rng = random.Random(self.seed * 1000003 + zlib_crc(name))
-            cases = self.corpus_cases(fam) + fam['gen'](rng, self.tier)
-        t0 = time.time()
-        impl_tr, crashes = run_impl(exe, cases, fb, timeout=fam.get('impl_timeout', 900))
-        t1 = time.time()
-        if model is not None:
-            model_tr, merrs = run_model(model, cases, impl_tr, fb)
-        else:
-            model_tr, merrs = dict(impl_tr), []
-        t2 = time.time()
-        famcov['impl_s'] = round(t1 - t0, 2); famcov['model_s'] = round(t2 - t1, 2)
+        model = prep['model']; exe = prep['exe']; cases = prep['cases']
+        impl_tr = prep['impl_tr']; crashes = prep['crashes']; model_tr = prep['model_tr']; merrs = prep['merrs']
+        famcov['impl_s'], famcov['model_s'] = prep['t']
         if merrs:
             self.report(fam, None, 'model runner failed', dict(errors=merrs), False)
         seen = set()
@@ -642,9 +662,16 @@ class Check:
         spec = self.spec
         if replay:
             return self.run_replay(replay)
-        proofs_ok = self.proofs()
-        for fam in spec.FAMILIES:
-            self.correspond(fam)
+        # the proof step and the families' build+run steps are independent: run them concurrently (subprocess-bound),
+        # then analyse the families one after the other
+        from concurrent.futures import ThreadPoolExecutor
+        with ThreadPoolExecutor(max_workers=int(os.environ.get('VERIF_PAR', '4'))) as ex:
+            fut_proofs = ex.submit(self.proofs)
+            futs = [(fam, ex.submit(self.prepare, fam)) for fam in spec.FAMILIES]
+            proofs_ok = fut_proofs.result()
+            preps = [(fam, f.result()) for fam, f in futs]
+        for fam, prep in preps:
+            self.correspond(fam, prep=prep)
         if not proofs_ok:
             # a proof obligation broke: the correspondence/oracle runs above were the search for a failing input
             found = any(s == '' for _, s in self.violations)
